@@ -103,7 +103,24 @@ func doLoad(root *ggql.Root, st c14Step) (err error, pan interface{}) {
 	}()
 	switch st.Kind {
 	case "addtypes-fail":
-		err = root.AddTypes(&ggql.Object{Base: ggql.Base{N: st.Dup}}, &ggql.Enum{Base: ggql.Base{N: "ZqFreshEnum"}})
+		switch st.Mode {
+		case 1:
+			// fails in validation only (an object without fields), with a directive, a scalar and an
+			// input among the types that came with it
+			dir := &ggql.Directive{Base: ggql.Base{N: "zqApiDir"}, On: []ggql.Location{ggql.LocObject, ggql.LocFieldDefinition}}
+			_ = dir.AddArg(&ggql.Arg{Base: ggql.Base{N: "p"}, Type: &ggql.Ref{Base: ggql.Base{N: "Int"}}, Default: int32(3)})
+			in := &ggql.Input{Base: ggql.Base{N: "ZqApiIn"}}
+			_ = in.AddField(&ggql.InputField{Base: ggql.Base{N: "a"}, Type: &ggql.Ref{Base: ggql.Base{N: "Int"}}})
+			err = root.AddTypes(dir, in, &ggql.Enum{Base: ggql.Base{N: "ZqFreshEnum"}}, &ggql.Object{Base: ggql.Base{N: "ZqEmptyObject"}})
+		case 2:
+			// an undefined reference among otherwise fine types and a directive
+			dir := &ggql.Directive{Base: ggql.Base{N: "zqApiDir"}, On: []ggql.Location{ggql.LocEnum}}
+			o := &ggql.Object{Base: ggql.Base{N: "ZqApiObject"}}
+			_ = o.AddField(&ggql.FieldDef{Base: ggql.Base{N: "a"}, Type: &ggql.Ref{Base: ggql.Base{N: "ZqNope"}}})
+			err = root.AddTypes(dir, o)
+		default:
+			err = root.AddTypes(&ggql.Object{Base: ggql.Base{N: st.Dup}}, &ggql.Enum{Base: ggql.Base{N: "ZqFreshEnum"}})
+		}
 	default:
 		if st.Class == "reader-fault" {
 			err = root.ParseReader(&faultReader{data: []byte(st.Text), at: st.FaultAt, mode: st.Mode})
@@ -371,7 +388,8 @@ func genCaseC14(t *rapid.T) *c14Case {
 		}
 		c.Steps = append(c.Steps, st)
 		if len(ex) > 0 && rapid.IntRange(0, 5).Draw(t, lab+"addtypes") == 0 {
-			c.Steps = append(c.Steps, c14Step{Kind: "addtypes-fail", Class: "addtypes-duplicate", Dup: rapid.SampledFrom(ex).Draw(t, lab+"dup")})
+			am := rapid.IntRange(0, 2).Draw(t, lab+"addtypesMode")
+			c.Steps = append(c.Steps, c14Step{Kind: "addtypes-fail", Class: []string{"addtypes-duplicate", "addtypes-validation-with-directive", "addtypes-undefined-reference-with-directive"}[am], Mode: am, Dup: rapid.SampledFrom(ex).Draw(t, lab+"dup")})
 		}
 	}
 	return c
